@@ -119,7 +119,7 @@ def check_single(case, st):
             want = holds(rel, tP)
             for lt in ((True, False) if rel != "eq" else (True,)):
                 for bk in BOUNDS:
-                    for lam in (LAMS if not case.get("wide") else LAMS[:1]):
+                    for lam in ((LAMS if spin else LAMS + (2,)) if not case.get("wide") else LAMS[:1]):
                         if case.get("wide") and bk not in ("omitted", "exact", "loosehalf"):
                             continue
                         reduced = (bk == "omitted" and lam == 1)
@@ -212,6 +212,8 @@ MENU = [
     ("ne", {(0,): -1, (1,): -2}, True),                       # != with maximum exactly 0 (implemented through <)
     ("ne", {(0,): 1, (2,): 2}, True),                         # != with minimum exactly 0 (implemented through >)
     ("ne", {(1,): 1, (2,): -3}, True),                        # != whose range reaches much further below 0 than above
+    ("eq", {(2,): 2, (0, 1): -1}, True),                      # near miss of the z == x y form: opposite signs, different magnitudes
+    ("eq", {(2,): 1, (0, 1): 1}, True),                       # near miss of the z == x y form: equal coefficients
 ]
 SPIN_MENU = [
     ("le", {(0,): 1, (1,): 1, (2,): 1, (): -1}, True),
@@ -226,6 +228,8 @@ SPIN_MENU = [
     ("eq", {(0,): 1, (1,): 1, (2,): 1, (): -1}, True),
     ("le", {(0,): 1, (): -2}, True),                          # always satisfied
     ("le", {(0,): 1, (): 2}, True),                           # never satisfiable
+    ("eq", {(2,): -1, (0,): 1, (1,): 1, (0, 1): -1}, True),   # boolean image 2 b_z - 4 b_x b_y: near miss of the z == x y form
+    ("eq", {(): 3, (2,): -2, (0,): -1, (1,): -1, (0, 1): 1}, True),   # boolean image 4 (b_z + b_x b_y)
 ]
 OBJECTIVE = {(0,): 1, (1, 2): -2, (): 0.5}
 MAX_SEQ_VARS = 16
@@ -315,7 +319,7 @@ def check(case, st):
 
 def run(ctx, spin):
     menu = SPIN_MENU if spin else MENU
-    ctx.bounds = {"n": N, "coefs": COEFS, "offsets": OFFSETS, "relations": RELS, "bounds": BOUNDS, "lams": LAMS,
+    ctx.bounds = {"n": N, "coefs": COEFS, "offsets": OFFSETS, "relations": RELS, "bounds": BOUNDS, "lams": LAMS if spin else LAMS + (2,),
                   "max_terms": ((2 if ctx.quick else 3) if not spin else ("1, plus 2 with unit coefficients" if ctx.quick else 2)),
                   "wide_slice": "two variables, <=2 terms with a coefficient from %s (quick: paired with a unit coefficient), offsets {0,1,-1}, bounds omitted/exact/loose-half, lam 1" % ((-10, -9, -7, -5, -3, 3, 5, 7, 9, 10) if not spin else (-5, -3, 3, 5),),
                   **({"boolean_image_slice": "spin polynomials m*B((1-z)/2) for every boolean B over 3 variables with <= %d unit-coefficient terms, offsets {0,1,-1} (the inputs that reach the boolean special forms); bounds omitted/exact/loose-half, lam 1" % (2 if ctx.quick else 3)} if spin else {}),
